@@ -58,6 +58,7 @@ type Config struct {
 	Auth      func(state *tls.ConnectionState) AuthHandler
 	RawLines  bool                 // record every line read in command mode as raw bytes
 	Jitter    func() time.Duration // latency before every reply (varies the schedule of concurrent clients)
+	MultiOK   bool                 // every positive 250 reply is given as a multi-line reply
 	HSGarbage bool                 // answer the ClientHello with bytes that are not TLS
 	HSStall   bool                 // never answer the ClientHello
 	// CredScan reports whether a cleartext line carries a password-revealing payload.
@@ -265,6 +266,9 @@ func (x *session) reply(k Key, okText string, caps []string) bool {
 			return x.write(b.String()) == nil
 		}
 		x.emit("reply", "code", code, "cls", "ok", "esc", "", "caps", []string{})
+		if x.s.cfg.MultiOK && code == 250 { // RFC 5321 4.2.1: any reply may be multi-line
+			return x.write(fmt.Sprintf("%d-%s\r\n%d-second line of the reply\r\n%d %s\r\n", code, okText, code, code, okText)) == nil
+		}
 		return x.write(fmt.Sprintf("%d %s\r\n", code, okText)) == nil
 	}
 	switch f.Class {
